@@ -133,6 +133,38 @@ fn main() {
             let rec = match case_of(&vec) {
                 Err(e) => json!({"line": k + 1, "vec": vec, "hash": [], "requests": [], "methods": [], "result": "err", "error": "",
                                  "profile": {"id": "", "name": ""}, "harness_error": e}),
+                Ok(c) if vec.get("secret2").is_some() => {
+                    // TWO logins with the same claimed name that overlap in time (the service answers after 300 ms): each connection has its own
+                    // shared secret, hence its own hash. Recorded as ONE observation: all requests seen, both hashes, both results.
+                    let secret2 = unhex(&vec["secret2"]).unwrap_or_default();
+                    let hash = std::panic::catch_unwind(|| minecraft_hash(&c.sid, &c.secret, &c.pubkey)).unwrap_or_default();
+                    let hash2 = std::panic::catch_unwind(|| minecraft_hash(&c.sid, &secret2, &c.pubkey)).unwrap_or_default();
+                    server.arm(c.script.clone());
+                    let adapter = adapters.entry(c.sid.clone()).or_insert_with(|| std::sync::Arc::new(MojangAdapter::default().with_server_id(c.sid.clone()))).clone();
+                    let uuid = Uuid::from_u128(0x0123_4567_89ab_cdef_0123_4567_89ab_cdef);
+                    let mut calls = vec![];
+                    for sec in [c.secret.clone(), secret2] {
+                        let (adapter, name, pubkey) = (adapter.clone(), c.name.clone(), c.pubkey.clone());
+                        calls.push(tokio::spawn(async move {
+                            tokio::time::timeout(Duration::from_secs(20), adapter.authenticate(&client_addr, ("play.example.org", 25565), 767, (&name, &uuid), &sec, &pubkey)).await
+                        }));
+                        tokio::time::sleep(Duration::from_millis(40)).await;
+                    }
+                    let mut results = vec![];
+                    for call in calls {
+                        results.push(match call.await {
+                            Err(_) => "panic",
+                            Ok(Err(_)) => "timeout",
+                            Ok(Ok(Err(_))) => "err",
+                            Ok(Ok(Ok(_))) => "ok",
+                        });
+                    }
+                    let seen = server.take().await;
+                    json!({"line": k + 1, "vec": vec, "hash": hash.as_bytes(), "hash2": hash2.as_bytes(),
+                           "requests": seen.iter().map(|r| json!(r.target)).collect::<Vec<_>>(),
+                           "methods": seen.iter().map(|r| json!(r.method)).collect::<Vec<_>>(),
+                           "result": results[0], "result2": results[1], "error": "", "profile": {"id": vec["reply_id"], "name": vec["reply_name"]}, "harness_error": ""})
+                }
                 Ok(c) => {
                     let hash = std::panic::catch_unwind(|| minecraft_hash(&c.sid, &c.secret, &c.pubkey)).unwrap_or_default();
                     server.arm(c.script.clone());
